@@ -7,6 +7,7 @@
 mod bits;
 mod expr;
 mod ops;
+mod reg;
 mod util;
 
 use std::io::{self, BufRead, Write};
@@ -34,6 +35,7 @@ fn main() {
         let res = std::panic::catch_unwind(|| match engine.as_str() {
             "ops" => ops::run(&toks),
             "bits" => bits::run(&toks),
+            "reg" => reg::run(&toks),
             other => format!("ERR unknown-engine {}", other),
         });
         let payload = match res {
